@@ -28,7 +28,7 @@ def replay(function, clause, model):
 def run_bounded(tier, seed):
     n, f, inp = H.bounded_plain_roundtrip(tier, seed)
     return {'tool': 'encode/decode round trip on the real txdbus.marshal (value and byte-count equality)',
-            'bound': '13 hand-picked container cases x 8 offsets x 2 byte orders; inferred-variant values; %d random (signature sequence, value, offset, byte order) cases over all single complete types up to length %d, values in list / tuple / dbusOrder-object / bytearray / wrapper form' % (10000 if tier == 'thorough' else 2400, 6 if tier == 'thorough' else 5),
+            'bound': '13 hand-picked container cases x 8 offsets x 2 byte orders; inferred-variant values; %d random (signature sequence, value, offset, byte order) cases over all single complete types up to length %d, values in list / tuple / dbusOrder-object / bytearray / wrapper form' % (80000 if tier == 'thorough' else 2400, 6 if tier == 'thorough' else 5),
             'evaluations': n, 'failures': [] if not f else [{'function': 'txdbus.marshal', 'clause': 'round-trip', 'input': inp, 'detail': f}]}
 
 
